@@ -15,12 +15,12 @@ Two differentials against the Lean models (`OnlVerif/Tcp/Sink.lean`, `OnlVerif/T
 import collections, copy, itertools, json, random
 
 from harness import tcpsim
-from harness.tcpsim import (Environment, Packet, TCPSink, Path, Recorder, SenderRun, make_cc, first_diff, explain_diff,
+from harness.tcpsim import (Environment, Packet, TCPSink, Path, LinkPath, Recorder, SenderRun, make_cc, first_diff, explain_diff,
                             quiet)
 from vlib.util import run_driver, split_cases
 
 ASSUMPTIONS = [
-    'a path is order-preserving per direction, delays each packet by an arbitrary non-negative amount and drops a finite set of transmission indices (DESIGN §3)',
+    'a path is order-preserving per direction, delays each packet by an arbitrary non-negative amount and drops a finite set of transmission indices (DESIGN §3); the one exception is the loss-free mildly reordering family (see `reordering paths` below)',
     'the flow size is a positive multiple of the MSS (512); flow.finish_time = inf; start_time, arrival_dist, size_dist unset; out attached; ACK packets carry flow_id >= 10000',
     'sequence numbers and sizes are natural numbers; RTT samples are non-negative (an ACK is not stamped in the future)',
     'theorems are over exact rationals; the executable models run at IEEE double and are compared bit for bit with the implementation',
@@ -292,6 +292,8 @@ class Late:
 
 
 def build_loop(env, case):
+    if case.get('reorder'):
+        return build_reorder_loop(env, case)
     late = Late()
     sinklog = []
     with quiet():
@@ -382,7 +384,8 @@ def loop_oracle(case, sr, sink, ended):
     if sink.recv_buffer != [[0, size]]:
         fails.append({'what': f'at the end sink.recv_buffer = {sink.recv_buffer}, wanted [[0, {size}]]',
                       'signature': 'loop-sink-incomplete'})
-    if not case['ddrops'] and not case['adrops']:
+    if not case['ddrops'] and not case['adrops'] and not case.get('reorder'):
+        # (a path that reorders is judged by `reorder_oracle`, which carries the hypothesis about duplicate ACKs)
         # loss-free: if every segment's ACK came back before its timer expired, nothing is sent twice
         # "round-trip time below the sender's current RTO": the RTO is the public attribute `rto` as it stood when the
         # segment was sent (not the expiry the implementation happened to arm its timer with)
@@ -402,6 +405,124 @@ def loop_oracle(case, sr, sink, ended):
                           'signature': 'loop-spurious-retransmit'})
         case['_timely'] = timely
     return fails
+
+
+# ---- loss-free paths that reorder mildly ---------------------------------------------------------------------
+# The random closed loops above run over order-preserving paths, so on a loss-free path the sender never sees a duplicate ACK.
+# Real paths reorder now and then (parallel links, a retried link-layer frame): a segment is overtaken by one or two later ones,
+# the sink answers the overtaking segments with the old prefix - an isolated run of one or two duplicate ACKs - and nothing is
+# lost.  Clause restated (`reorder_oracle`): "Over a loss-free path whose round-trip time stays below the sender's current RTO no
+# segment is transmitted twice."  READING: TCP's fast retransmit answers three CONSECUTIVE duplicate ACKs (C17: "the third duplicate
+# ACK ... retransmits"), so a path that reorders by three or more positions legitimately provokes a retransmission; the clause is
+# demanded only of runs in which every run of consecutive duplicate ACKs that reached the sender is shorter than three.  The
+# hypothesis is checked on the trace with the harness's own observations (transmissions counted at the sender's `out`, round-trip
+# times from the harness clock, ACK numbers logged where the ACK path hands them to the sender, the public `rto` around every
+# event, timer expiries seen by the tap); a case outside it is counted `hypothesis-not-met:<reason>` and not judged.
+
+ASSUMPTIONS.append('reordering paths: a share of the closed loops runs over a loss-free data path that is a serial link (tx seconds per segment, then a '
+                   'propagation delay) on which 3-6 chosen transmissions, at least 5 apart, take 1.5 or 2.5 serialisation times longer, so that each is '
+                   'overtaken by one or two later segments; the ACK path keeps order. These loops are replayed through the sender LTS and the sink model '
+                   'like all others (the models are driven by the events the path produces). "No segment is transmitted twice" is demanded of them only '
+                   'when, on the trace, nothing was dropped, no retransmission timer expired, the largest round-trip time lies below the smallest RTO the '
+                   'sender ever held, and no three consecutive duplicate ACKs reached the sender (otherwise: hypothesis-not-met, not judged)')
+
+
+def gen_reorder_case(rng):
+    cc = rng.choice(['reno', 'cubic'])
+    nseg = rng.randint(28, 64)
+    tx = rng.choice([0.001, 0.002, 0.004, 0.01])
+    prop = rng.choice([0.02, 0.05, 0.05, 0.1, 0.25])
+    aprop = rng.choice([prop, prop, round(prop * rng.uniform(0.5, 1.5), 4)])
+    atx = rng.choice([0.0, 0.0, tx / 4])
+    idx, i = [], rng.randint(2, 8)
+    want = rng.randint(3, 6)
+    while len(idx) < want and i < nseg - 1:
+        idx.append(i)
+        i += rng.randint(5, 12)                    # at least 4 segments in between
+    extra = {str(i): rng.choice([1.5, 1.5, 2.5]) * tx for i in idx}
+    base = tx + prop + atx + aprop
+    rtt0 = max(rng.choice([1.0, 1.0, 3.0, round(base * rng.choice([3, 5, 10]), 4)]), round(1.5 * (base + 0.5 * nseg * tx), 4))
+    c = {'kind': 'loop', 'cc': cc, 'nseg': nseg, 'rtt_estimate': rtt0, 'ddelays': [tx + prop], 'adelays': [atx + aprop], 'ddrops': [], 'adrops': [],
+         'reorder': {'tx': tx, 'prop': prop, 'atx': atx, 'aprop': aprop, 'extra': extra}}
+    if cc == 'reno' and rng.random() < 0.2:
+        c['ccmss'] = rng.choice([100, 256, 1000, 1460])
+    if cc == 'reno' and rng.random() < 0.3:
+        c['cwnd0'] = rng.choice([2, 4, 10])
+    return c
+
+
+def build_reorder_loop(env, case):
+    ro = case['reorder']
+    late = Late()
+    sinklog = []
+    with quiet():
+        sink = TCPSink(env)
+    cur = [None]                 # the data transmission the sink is being handed right now
+    tags = []                    # ACK transmission j answers data transmission tags[j]
+
+    def ack_put(a):
+        tags.append(cur[0])
+        sinklog.append((a.packet_id, a.ack, copy.deepcopy(sink.recv_buffer[:64])))
+
+    def ack_deliver(j, a):
+        ackpath.acknos.append(a.ack)
+        if tags[j] is not None:
+            ackpath.rtts.append(env.now - datapath.sent[tags[j]])
+    ackpath = LinkPath(env, late, ro['atx'], ro['aprop'], None, on_put=ack_put, on_deliver=ack_deliver)
+    ackpath.acknos, ackpath.rtts = [], []
+    sink.out = ackpath
+    datapath = LinkPath(env, sink, ro['tx'], ro['prop'], ro['extra'], on_deliver=lambda i, p: cur.__setitem__(0, i))
+    seg = seg_of(case)
+    cc = make_cc(case['cc'], mss=seg, cwnd=max(512, seg) * case.get('cwnd0', 1), ssthresh=case.get('ssthresh0', 65535))
+    sr = SenderRun(env, case['cc'], cc, case['rtt_estimate'], case['nseg'] * seg, datapath, flow_id=case.get('flow_id', 0))
+    late.target = sr
+    return [sr, sink, None, sinklog, datapath, ackpath]
+
+
+def dup_runs(acknos):
+    """lengths of the runs of consecutive duplicate ACKs in the sequence of ACK numbers handed to the sender (an ACK is a duplicate
+    when it repeats the number of the ACK before it; before the first one the acknowledged mark is 0)"""
+    runs, run, prev = [], 0, 0
+    for a in acknos:
+        if a == prev:
+            run += 1
+        else:
+            if run:
+                runs.append(run)
+            run = 0
+        prev = a
+    if run:
+        runs.append(run)
+    return runs
+
+
+def reorder_oracle(case, sr, sink, ended, dpath, apath):
+    """-> (failures, verdict).  "Over a loss-free path whose round-trip time stays below the sender's current RTO no segment is
+    transmitted twice", for paths that reorder; the hypothesis is checked on the trace first (see the section comment)"""
+    if (sr.error and sr.error[0] != 'budget') or not ended or sr.sender.last_ack != case['nseg'] * seg_of(case):
+        return [], 'not-judged:run-failed-or-incomplete(reported-by-the-loop-oracle)'
+    if dpath.dropped or apath.dropped or dpath.delivered != dpath.n or apath.delivered != apath.n:
+        return [], 'hypothesis-not-met:a-packet-was-not-delivered'
+    if any(r['tag'] == 'F' for r in sr.records):
+        return [], 'hypothesis-not-met:a-retransmission-timer-expired'
+    rtos = [r[k]['rto'] for r in sr.records for k in ('before', 'after')]
+    if not rtos or not apath.rtts:
+        return [], 'not-judged:no-events'
+    max_rtt, min_rto = max(apath.rtts), min(rtos)
+    if not max_rtt < min_rto:
+        return [], 'hypothesis-not-met:a-round-trip-time-not-below-every-rto'
+    runs = dup_runs(apath.acknos)
+    if runs and max(runs) >= 3:
+        return [], 'hypothesis-not-met:three-or-more-consecutive-duplicate-acks'
+    seqs = [q for q, sz, t in sr.tx.log]
+    twice = sorted(q for q, n in collections.Counter(seqs).items() if n > 1)
+    if twice:
+        overt = [i for k, i in enumerate(dpath.order) if any(j > i for j in dpath.order[:k])]
+        return [{'what': f'loss-free path that reorders mildly ({len(overt)} of {dpath.n} transmissions were overtaken by later ones; nothing dropped in either '
+                         f'direction), largest round-trip time {max_rtt:.6g} < smallest RTO the sender ever held {min_rto:.6g}, no retransmission timer '
+                         f'expired, duplicate ACKs reached the sender only in runs of {sorted(set(runs))} (never three in a row; {len(runs)} runs), yet '
+                         f'segment(s) {twice[:5]} were transmitted twice', 'signature': 'loop-reorder-spurious-retransmit'}], 'judged'
+    return [], 'judged'
 
 
 # ---- data flow ids -------------------------------------------------------------------------------------------
@@ -706,6 +827,7 @@ def run(ctx):
         cases += [gen_sink_case(rng) for _ in range(n_sink)]
         cases += enum_loop_cases(4, small=True) if ctx.quick else enum_loop_cases(8)
         cases += [gen_loop_group(rng) for _ in range(n_loop)]
+        cases += [gen_reorder_case(rng) for _ in range(80 if ctx.quick else 1200)]
         assign_flow_ids(cases, random.Random(f'C16-flowids-{ctx.seed}'))
     disagreements, oracle_failures = [], []
     hist = collections.Counter()
@@ -759,6 +881,7 @@ def run(ctx):
     kmodel = model_batch('tcpsink', [f'CASE {key}\n' + '\n'.join(f'P {pid} {t[0].sender.mss}' for pid, a, b in t[3]) + '\nEND'
                                      for key, label, uc, c, t in units], 500)
     lines_compared = 0
+    rhist, rnontriv = collections.Counter(), set()
     foreign = {'count': 0, 'why': window_rules_are_the_cause.__doc__.strip(), 'samples': []}
     for key, label, uc, top, t in units:
         sr, sink, ended, sinklog, dpath, apath = t
@@ -828,6 +951,21 @@ def run(ctx):
             oracle_failures.append(f)
         if c.get('_timely'):
             hist['loop-lossfree-timely'] += 1
+        if c.get('reorder'):
+            fs, verdict = reorder_oracle(c, sr, sink, ended, dpath, apath)
+            for f in fs:
+                f.update(case=clean(top), trace=sr.lines[:400] + ['--'] + sr.trace[-6:], what=label + f['what'])
+                oracle_failures.append(f)
+            rhist[verdict] += 1
+            rhist['cc:' + c['cc']] += 1
+            runs = dup_runs(apath.acknos)
+            for n in runs:
+                rhist[f'runs-of-{min(n, 3)}{"-or-more" if n >= 3 else ""}-duplicate-acks'] += 1
+            rhist['transmissions-overtaken'] += sum(1 for k, i in enumerate(dpath.order) if any(j > i for j in dpath.order[:k]))
+            rhist['transmissions'] += dpath.n
+            if verdict == 'judged' and len(runs) >= 3:
+                rhist['judged-with-3-or-more-isolated-duplicate-runs'] += 1
+                rnontriv.add(json.dumps(clean(top), sort_keys=True))
         if not label:
             if dpath.dropped or apath.dropped or hist_retx(sr):
                 nontrivial.add(json.dumps(clean(top), sort_keys=True))
@@ -859,6 +997,13 @@ def run(ctx):
                 'distinct configurations in which at least one packet was really dropped or a segment retransmitted',
         'samples': samples,
         'sink_sequences': len(sinks), 'closed_loops': len(loops), 'closed_loops_executed_a_second_time': again,
+        'reordering_paths': {'evaluations': sum(1 for _, c in loops if c.get('reorder')), 'distinct_nontrivial': len(rnontriv),
+                             'replayed_through_the_models': True,
+                             'what': 'loss-free closed loops (Reno and CUBIC, 28-64 segments) over a serial-link data path on which 3-6 transmissions, >= 5 apart, are '
+                                     'delayed by 1.5 / 2.5 serialisation times and so overtaken by one or two later segments; judged by the reorder oracle when its '
+                                     'hypothesis holds on the trace; non-trivial = judged and at least three separate runs of duplicate ACKs reached the sender',
+                             'histogram': dict(sorted(rhist.items())),
+                             'sample': next((clean(c) for _, c in loops if c.get('reorder')), None)},
         'data_flow_ids': {'sink_sequences_at_or_above_10000': sum(1 for _, c in sinks if c.get('flow_id', 0) >= 10000),
                           'closed_loops_at_or_above_10000': sum(1 for _, c in loops if c.get('flow_id', 0) >= 10000),
                           'named_below_10000': sum(1 for c in cases if 0 <= c.get('flow_id', -1) < 10000),
